@@ -5,14 +5,148 @@
 #                                               B byte slice (hex), S string (hex, any bytes)
 # result: W=<bytes written, hex> L=<Len() after each write> R=<value@Position()/Len()+alloc ; ...>
 #         (implementation adds WERR=<write error> REF=ok|<hex produced by encoding/binary>)
+#
+# interleaved case (one stream, reads between the writes, optional Tidy):
+# case:   c11i <schedule> <api><type>:<value> ...   schedule over W (write the next value), R (read the oldest
+#                                          value not yet read, with the matching call), T (OctetsStream.Tidy())
+# result: S=<step;...> P=<Position()>/<Len()> U=<unread bytes, hex>     (implementation adds WERR= REF=)
+#         step: w<pos>/<len> | R<pos before>~<value>@<pos>/<len>+alloc | t<pos>/<len>
 from . import common, pure, octets
 from .octets import tok, parse_tok, parse_fields, parse_rds, ref_encode
 
 ID = "C11"
 
 
+def is_inter(case):
+    return case.startswith("c11i ") or case == "c11i"
+
+
 def case_vals(case):
-    return [parse_tok(t) for t in case.split()[1:]]
+    return [parse_tok(t) for t in case.split()[(2 if is_inter(case) else 1):]]
+
+
+def parse_steps(field):
+    """'w0/3;R0~h:-2@2/3+0;t0/1' -> [('w',pos,len) | ('R',p0,val,pos,len,alloc) | ('t',pos,len)] ; None if malformed"""
+    out = []
+    if not field:
+        return out
+    for st in field.split(";"):
+        try:
+            if st[0] in "wt":
+                a, b = st[1:].split("/")
+                out.append((st[0], int(a), int(b)))
+            elif st[0] == "R":
+                p0, rd = st[1:].split("~", 1)
+                val, pos, ln, alloc = octets.parse_rd(rd)
+                out.append(("R", int(p0), val, pos, ln, alloc))
+            else:
+                return None
+        except (ValueError, IndexError):
+            return None
+    return out
+
+
+def parse_inter(line):
+    if not line.startswith("S="):
+        return None
+    d = {}
+    for p in line.split(" "):
+        if "=" in p:
+            k, v = p.split("=", 1)
+            d[k] = v
+    if "P" not in d or "U" not in d:
+        return None
+    d["steps"] = parse_steps(d["S"])
+    return d if d["steps"] is not None else None
+
+
+def compare_inter(case, model, impl):
+    pm, pi = parse_inter(model), parse_inter(impl)
+    if pm is None:
+        return "model produced no result (%s)" % model[:100]
+    if pi is None:
+        return "implementation produced no result"
+    sm = [x[:-1] if x[0] == "R" else x for x in pm["steps"]]
+    si = [x[:-1] if x[0] == "R" else x for x in pi["steps"]]
+    if len(sm) != len(si):
+        return "step count differs"
+    for k, (a, b) in enumerate(zip(sm, si)):
+        if a != b:
+            return "step #%d (%s): model %s vs implementation %s" % (k, case.split()[1][k], str(a)[:80], str(b)[:80])
+    if pm["P"] != pi["P"]:
+        return "final Position()/Len() differ"
+    if pm["U"] != pi["U"]:
+        return "final unread bytes differ"
+    return None
+
+
+def monitor_inter(case, impl):
+    """The property text on the implementation's observation of an interleaved run, without the model: the k-th
+    read returns the k-th value written and moves Position() by exactly the size of that value's documented
+    encoding; a write grows the unread size Len()-Position() by the encoding's size, a read shrinks it by the same,
+    Tidy keeps it; so after every step the unread bytes are the encodings of the values written and not yet read
+    (their count here, their content inside the harness against encoding/binary, and at the end here against
+    python struct/LEB128). Absolute positions are not judged here (they are compared with the model)."""
+    pi = parse_inter(impl)
+    if pi is None:
+        return ("panic", "no result / panic: " + impl[:200])
+    t = case.split()
+    sched = t[1] if len(t) > 1 else ""
+    vals = case_vals(case)
+    steps = pi["steps"]
+    if len(steps) != len(sched):
+        return ("read-count", "step count")
+    if pi.get("WERR") != "nil":
+        return ("write-error", "a write returned an error: " + str(pi.get("WERR")))
+    nw = nr = 0
+    unread = 0          # Len() - Position(): absolute positions are not part of the property (a Tidy re-bases them)
+    pend = []
+    for k, (c, st) in enumerate(zip(sched, steps)):
+        if c == "W":
+            _, typ, v = vals[nw]
+            nw += 1
+            enc = ref_encode(typ, v)
+            pend.append(enc)
+            if st[0] != "w":
+                return ("step-kind", "step %d" % k)
+            if st[2] - st[1] != unread + len(enc):
+                return ("write-size", "step %d: write of %s changed the unread size Len()-Position() from %d to %d, want +%d" % (
+                    k, tok("", typ, v)[:40], unread, st[2] - st[1], len(enc)))
+            unread = st[2] - st[1]
+        elif c == "R":
+            _, typ, v = vals[nr]
+            nr += 1
+            enc = pend.pop(0)
+            exp = tok("", typ, v)
+            if st[0] != "R":
+                return ("step-kind", "step %d" % k)
+            _, p0, val, p1, l1, _ = st
+            if val != exp:
+                return ("round-trip", "step %d (read #%d): wrote %s read back %s" % (k, nr - 1, exp[:60], val[:60]))
+            if p1 - p0 != len(enc):
+                return ("consumed", "step %d (read #%d, %s): Position() %d -> %d, want +%d (exactly the bytes written)" % (k, nr - 1, exp[:40], p0, p1, len(enc)))
+            if l1 - p1 != unread - len(enc):
+                return ("unread-size", "step %d: read of %s left %d unread bytes, want %d" % (k, exp[:40], l1 - p1, unread - len(enc)))
+            unread = l1 - p1
+        else:
+            if st[0] != "t":
+                return ("step-kind", "step %d" % k)
+            if st[2] - st[1] != unread:
+                return ("tidy", "step %d: Tidy changed the unread size from %d to %d" % (k, unread, st[2] - st[1]))
+        if unread != sum(len(e) for e in pend):
+            return ("unread-size", "step %d: %d unread bytes, want %d (the values written and not yet read)" % (k, unread, sum(len(e) for e in pend)))
+    pos, ln = (int(x) for x in pi["P"].split("/"))
+    if ln - pos != unread:
+        return ("final-position", "final Position()/Len() %s, want %d unread" % (pi["P"], unread))
+    want = b"".join(pend)
+    got = b"" if pi["U"] == "-" else bytes.fromhex(pi["U"])
+    if got != want:
+        return ("unread-bytes", "unread bytes at the end differ from the encodings of the values not yet read")
+    if pi.get("REF") != "ok":
+        return ("unread-bytes-ref", "unread bytes differ from encoding/binary after " + str(pi.get("REF")))
+    if nw == len(vals) and nr == nw and pos != ln:
+        return ("not-at-end", "everything read back but Position() %d != Len() %d" % (pos, ln))
+    return None
 
 
 def strip_alloc(field):
@@ -22,6 +156,8 @@ def strip_alloc(field):
 def compare(case, model, impl):
     if case.startswith("c11sweep"):
         return None
+    if is_inter(case):
+        return compare_inter(case, model, impl)
     pm, pi = parse_fields(model), parse_fields(impl)
     if pm is None:
         return "model produced no result (%s)" % model[:100]
@@ -44,6 +180,8 @@ def monitor(case, impl):
         if not impl.startswith("SWEEP ok"):
             return ("sweep", "int32 sweep against encoding/binary failed: " + impl[:300])
         return None
+    if is_inter(case):
+        return monitor_inter(case, impl)
     pi = parse_fields(impl)
     if pi is None:
         return ("panic", "no result / panic: " + impl[:200])
@@ -82,6 +220,9 @@ def monitor(case, impl):
 def nontrivial(case, model):
     # reaches the rule: at least one multi-byte encoding or >= 2 values
     t = case.split()
+    if is_inter(case):
+        # reaches the rule: some read happens while a later write is still to come
+        return len(t) >= 3 and "R" in t[1] and "W" in t[1][t[1].index("R"):]
     return len(t) >= 3 or (len(t) == 2 and t[1][1] not in "by")
 
 
@@ -212,6 +353,141 @@ def gen(rng, tier):
     return streams
 
 
+# ---------------------------------------------------------------- interleaved generators
+# Go's allocation size classes (runtime/sizeclasses.go) up to 32 KiB: the capacity append() really gets
+_SIZE_CLASSES = [8, 16, 24, 32, 48, 64, 80, 96, 112, 128, 144, 160, 176, 192, 208, 224, 240, 256, 288, 320, 352, 384, 416,
+                 448, 480, 512, 576, 640, 704, 768, 896, 1024, 1152, 1280, 1408, 1536, 1792, 2048, 2304, 2688, 3072, 3200,
+                 3456, 4096, 4864, 5376, 6144, 6528, 6784, 6912, 8192, 9472, 9728, 10240, 10880, 12288, 13568, 14336, 16384,
+                 18432, 19072, 20480, 21760, 24576, 27264, 28672, 32768]
+
+
+def go_grow(cap, ln, add):
+    """predicted capacity of a []byte after append of add bytes (runtime.growslice); only used to aim value
+    sizes at the spare capacity, never to judge a result"""
+    need = ln + add
+    if need <= cap:
+        return cap
+    if need > 2 * cap:
+        new = need
+    elif cap < 256:
+        new = 2 * cap
+    else:
+        new = cap
+        while new < need:
+            new += (new + 768) // 4
+    for c in _SIZE_CLASSES:
+        if c >= new:
+            return c
+    return (new + 8191) // 8192 * 8192
+
+
+def gen_inter_case(rng, tidy, nvals, complete=True, budget=9000):
+    """one random FIFO-discipline schedule with its values; value sizes aimed at the spare capacity of the
+    backing array so that bulk writes into a partly consumed stream do / do not / just do not fit"""
+    sched, vals, pend = [], [], []
+    ln = pos = cap = 0
+    nw = 0
+    while True:
+        opts = []
+        if nw < nvals:
+            opts += ["W"] * 3
+        if pend:
+            opts += ["R"] * 3
+        if tidy and sched and sched[-1] != "T":
+            opts += ["T"]
+        if not opts or (not complete and nw == nvals and rng.chance(1, 2)):
+            break
+        c = rng.choice(opts)
+        if c == "W":
+            m = rng.below(10)
+            if m < 4 or budget < 200:
+                t = rand_val(rng)
+            else:
+                typ = rng.choice("BS")
+                spare = max(0, cap - ln)
+                if m < 7:
+                    n = rng.range(100, min(5000, budget))
+                elif m < 9:
+                    # prefix + data = spare + d: fits exactly / is one or two bytes short or over
+                    want = spare + rng.range(-2, 2)
+                    n = max(1, want - (1 if want <= 128 else 2))
+                    n = min(n, budget)
+                else:
+                    n = rng.choice([spare, 2 * cap + rng.range(-1, 1), cap + pos + rng.range(-1, 1), pos, rng.range(1, 64)])
+                    n = max(1, min(n, budget))
+                budget -= n
+                t = tok("w", typ, rand_bytes(rng, n))
+            _, typ, v = parse_tok(t)
+            enc = ref_encode(typ, v)
+            if typ in "BS":
+                k = len(enc) - len(v)
+                cap = go_grow(cap, ln, k)
+                cap = go_grow(cap, ln + k, len(v))
+            else:
+                cap = go_grow(cap, ln, len(enc))
+            ln += len(enc)
+            vals.append(t)
+            pend.append(len(enc))
+            nw += 1
+        elif c == "R":
+            pos += pend.pop(0)
+        else:
+            ln -= pos
+            pos = 0
+        sched.append(c)
+    return "c11i %s %s" % ("".join(sched), " ".join(vals))
+
+
+def fifo_schedules(n):
+    """all complete write/read schedules of n values with #reads <= #writes at every prefix"""
+    out = []
+
+    def go(pre, w, r):
+        if w == n and r == n:
+            out.append(pre)
+            return
+        if w < n:
+            go(pre + "W", w + 1, r)
+        if r < w:
+            go(pre + "R", w, r + 1)
+    go("", 0, 0)
+    return out
+
+
+def gen_inter(rng, tier):
+    quick = tier == "quick"
+    streams = []
+    # every complete schedule of 4 values, alone and with one Tidy at every place, for value sets whose sizes
+    # straddle the first capacities of the backing array (8, 16, 32, ...)
+    ex = []
+    sets = [
+        [tok("w", "S", b"hello world"), tok("w", "i", 12345678), tok("w", "B", bytes((7 * i + 1) & 255 for i in range(300))), tok("w", "l", -2)],
+        [tok("s", "y", 7), tok("w", "B", bytes(range(1, 7))), tok("w", "S", bytes(range(40, 70))), tok("s", "h", -2)],
+        [tok("w", "B", bytes(range(200))), tok("w", "v", -1), tok("w", "B", bytes(range(255, 0, -1)) * 3), tok("w", "S", b"")],
+    ]
+    for vs in sets:
+        for sc in fifo_schedules(len(vs)):
+            ex.append("c11i %s %s" % (sc, " ".join(vs)))
+            for k in range(len(sc) + 1):
+                ex.append("c11i %s %s" % (sc[:k] + "T" + sc[k:], " ".join(vs)))
+    if not quick:
+        vs5 = sets[0] + [tok("w", "B", bytes(range(256)) * 5)]
+        for sc in fifo_schedules(5):
+            ex.append("c11i %s %s" % (sc, " ".join(vs5)))
+    streams.append(("interleaved-exhaustive-schedules", ex))
+    # random schedules, writes and reads only (c11_rt_interleaved)
+    n = 1500 if quick else 10000
+    streams.append(("interleaved-random", [gen_inter_case(rng, False, rng.choice([2, 3, 4, rng.range(2, 12)]), complete=not rng.chance(1, 6)) for _ in range(n)]))
+    # random schedules with Tidy (c11_rt_interleaved_tidy)
+    streams.append(("interleaved-random-tidy", [gen_inter_case(rng, True, rng.choice([2, 3, 4, rng.range(2, 12)]), complete=not rng.chance(1, 6)) for _ in range(n)]))
+    # small values only, long schedules (many growth steps 8 -> 16 -> 32 ... crossed one value at a time)
+    lg = []
+    for _ in range(300 if quick else 5000):
+        lg.append(gen_inter_case(rng, rng.chance(1, 2), rng.range(10, 40), budget=0))
+    streams.append(("interleaved-small-values-long", lg))
+    return streams
+
+
 def sweeps(tier):
     """implementation-only sweeps of the int32 line (both encodings) against encoding/binary"""
     if tier == "quick":
@@ -243,6 +519,8 @@ def run_sweeps(chk, binary):
 def coq_crosscheck(chk, cases, model_out):
     items = []
     for c, m in zip(cases, model_out):
+        if is_inter(c):
+            continue
         pm = parse_fields(m)
         if pm is None or len(c) > 600:
             continue
@@ -254,9 +532,42 @@ def coq_crosscheck(chk, cases, model_out):
         for rd in parse_rds(pm["R"]):
             flat += octets.flat_rd(rd)
         items.append("(oct_c11_case %s, %s, %s, %s)" % (term, octets.coq_zlist(w), octets.coq_zlist(["(%d)" % x for x in ls]), octets.coq_zlist(["(%d)" % x for x in flat])))
-    if not items:
+    iitems = []
+    for c, m in zip(cases, model_out):
+        if not is_inter(c) or len(c) > 600:
+            continue
+        pm = parse_inter(m)
+        if pm is None:
+            continue
+        vals = case_vals(c)
+        term = "[" + ";".join("(%s, %s)" % ("OctViaStream" if a == "s" else "OctViaReader", octets.coq_val(t, list(v) if t in "BS" else v)) for a, t, v in vals) + "]"
+        sch = "[" + ";".join({"W": "OctSW", "R": "OctSR", "T": "OctST"}[x] for x in c.split()[1]) + "]"
+        flat = []
+        for st in pm["steps"]:
+            if st[0] == "w":
+                flat += [200, st[1], st[2]]
+            elif st[0] == "t":
+                flat += [202, st[1], st[2]]
+            else:
+                flat += [201, st[1]] + octets.flat_rd(st[2:])
+        fp, fl = pm["P"].split("/")
+        flat += [int(fp), int(fl)] + ([] if pm["U"] == "-" else list(bytes.fromhex(pm["U"])))
+        iitems.append("(oct_c11i_case %s %s, %s)" % (sch, term, octets.coq_zlist(["(%d)" % x for x in flat])))
+    if not items and not iitems:
         return 0
     body = octets.COQ_FLAT + """
+Definition fl_obs (o : oct_sobs) : list Z :=
+  match o with
+  | OctObW s => [200; oct_position s; oct_len s]
+  | OctObR p r => 201 :: Z.of_nat p :: fl_rd r
+  | OctObT s => [202; oct_position s; oct_len s] end.
+Definition oki (c : option (list oct_sobs * oct_stream) * list Z) : bool :=
+  match c with
+  | (Some (obs, s), f) => zl_eqb (flat_map fl_obs obs ++ [oct_position s; oct_len s] ++ skipn (oct_pos s) (oct_buf s)) f
+  | _ => false end.
+Definition icases := [%s].
+Definition ibad := Eval vm_compute in length (filter (fun c => negb (oki c)) icases).
+Print ibad.
 Definition ok (c : option (list Z * oct_stream * list (oct_rd oct_val)) * list Z * list Z * list Z) : bool :=
   match c with
   | (Some (ls, s, rs), w, l, f) => zl_eqb (oct_buf s) w && zl_eqb ls l && zl_eqb (flat_map fl_rd rs) f
@@ -264,11 +575,12 @@ Definition ok (c : option (list Z * oct_stream * list (oct_rd oct_val)) * list Z
 Definition cases := [%s].
 Definition bad := Eval vm_compute in length (filter (fun c => negb (ok c)) cases).
 Print bad.
-""" % ";\n".join(items)
+""" % (";\n".join(iitems), ";\n".join(items))
     out = common.run_coq_eval(body)
-    if "bad = 0%nat" not in out.replace("\n", " "):
-        chk.diverge("vm_compute-vs-extraction", "sample of %d cases" % len(items), out[-300:], "", "extracted OCaml model disagrees with vm_compute")
-    return len(items)
+    flat_out = out.replace("\n", " ")
+    if "bad = 0%nat" not in flat_out.replace("ibad = 0%nat", "") or "ibad = 0%nat" not in flat_out:
+        chk.diverge("vm_compute-vs-extraction", "sample of %d cases" % (len(items) + len(iitems)), out[-300:], "", "extracted OCaml model disagrees with vm_compute")
+    return len(items) + len(iitems)
 
 
 # ---------------------------------------------------------------- entry points
@@ -279,12 +591,16 @@ def run(chk):
     chk.cov["rule"] = ("case = a sequence of typed values written through OctetsStream/OctetsWriter and read back with the matching calls; "
                        "streams: all 2^16 int16, all bytes/bools, every power-of-two / 7-bit-group edge of int32/int64/7-bit, boundary-biased "
                        "random ints, strings/byte slices with lengths across 127/128, 16383/16384 (thorough: 2^21) and non-UTF-8 content, random "
-                       "interleaved typed sequences, every 4099-th int32; plus an implementation-only sweep of the int32 line in both encodings "
+                       "mixed typed sequences, every 4099-th int32; INTERLEAVED use of one stream (c11i: schedule over W/R/T = next write / "
+                       "matching read of the oldest unread value / Tidy, FIFO discipline): every complete schedule of 4 values alone and with one "
+                       "Tidy at every place, random schedules without and with Tidy whose byte-slice/string sizes are aimed at the spare capacity "
+                       "of the backing array (100..5000 bytes, spare-2..spare+2, 2*cap, cap+position) so that bulk writes hit a partly consumed "
+                       "stream that must grow, long schedules of small values; plus an implementation-only sweep of the int32 line in both encodings "
                        "against encoding/binary (thorough: all 2^32). non-trivial = some multi-byte encoding or >= 2 values; distinct = distinct case line")
-    chk.run_proof_gate(octets.PROOFS)
+    chk.run_proof_gate(octets.PROOFS + ["proofs/OctetsInterleaved.v"])
     binary = pure.build_pure(chk)
     if binary:
-        streams = [("corpus", [c for c in pure.corpus_cases(ID) if c.startswith("c11 ") or c == "c11"])] + gen(chk.rng, chk.tier)
+        streams = [("corpus", [c for c in pure.corpus_cases(ID) if c.startswith("c11 ") or c == "c11" or is_inter(c)])] + gen(chk.rng, chk.tier) + gen_inter(chk.rng, chk.tier)
         cases, model, impl = octets.run_streams(chk, binary, streams, compare, monitor, nontrivial)
         run_sweeps(chk, binary)
         # measured distribution: values per type, encoded size of the 7-bit values and of the length prefixes
@@ -303,9 +619,12 @@ def run(chk):
         chk.cov["length_prefix_size_histogram"] = dict(sorted(szp.items()))
         # vm_compute cross-check on a sample
         try:
-            idx = [k for k, c in enumerate(cases) if len(c) <= 600]
-            step = max(1, len(idx) // 150)
-            pick = idx[::step][:160]
+            idx = [k for k, c in enumerate(cases) if len(c) <= 600 and not is_inter(c)]
+            step = max(1, len(idx) // 120)
+            pick = idx[::step][:130]
+            idx = [k for k, c in enumerate(cases) if len(c) <= 600 and is_inter(c)]
+            step = max(1, len(idx) // 60)
+            pick += idx[::step][:70]
             n = coq_crosscheck(chk, [cases[k] for k in pick], [model[k] for k in pick])
             chk.cov["vm_compute_crosschecked"] = n
         except Exception as ex:
@@ -319,8 +638,10 @@ def search(chk):
     binary = pure.build_pure(chk)
     if not binary:
         return
-    streams = gen(chk.rng.fork(), "thorough")
-    cases = [c for name, cs in streams for c in cs if name != "int32-every-4099th"][:60000]
+    frng = chk.rng.fork()
+    cases = [c for name, cs in gen_inter(frng, "thorough") for c in cs]
+    streams = gen(frng, "thorough")
+    cases += [c for name, cs in streams for c in cs if name != "int32-every-4099th"][:60000]
     cases += sweeps("quick")
     impl = common.run_impl(binary, cases)
     for c, i in zip(cases, impl):
